@@ -31,9 +31,35 @@ fn deep_set(a: array<string>, i: int, v: string) -> int {
     return (array_length a)
 }
 '''
+COPY_HELPERS = '''fn keep_arr(a: array<int>) -> bool {
+    return (> (array_length a) 0)
+}
+fn grow(a: array<int>) -> array<int> {
+    return (array_push a 1)
+}
+fn keep_str(s: string) -> bool {
+    return (> (str_length s) 0)
+}
+fn same_str(s: string) -> string {
+    return s
+}
+fn slice_len_aai(a: array<array<int>>, lo: int, hi: int) -> int {
+    let d: array<array<int>> = (array_slice a lo hi)
+    return (array_length d)
+}
+fn slice_len_ap(a: array<P>, lo: int, hi: int) -> int {
+    let d: array<P> = (array_slice a lo hi)
+    let e: array<P> = (array_slice d 0 1)
+    return (+ (array_length d) (array_length e))
+}
+fn slice_len_as(a: array<string>, lo: int, hi: int) -> int {
+    let d: array<string> = (array_slice a lo hi)
+    return (array_length d)
+}
+'''
 STR_POOL = ['"a"', '"b"', '"ab"', '"alpha"', '"t1"', '""', '"x"', '"xy"']
 TYPES = {'int': 'int', 'str': 'string', 'ai': 'array<int>', 'as': 'array<string>', 'aai': 'array<array<int>>',
-         'P': 'P', 'Q': 'Q', 'T': '(string, int)', 'U': 'Shape', 'F': 'fn(int) -> int'}
+         'aP': 'array<P>', 'P': 'P', 'Q': 'Q', 'T': '(string, int)', 'U': 'Shape', 'F': 'fn(int) -> int'}
 
 
 class Gen:
@@ -103,9 +129,19 @@ class Gen:
             a = self.pick(env, 'as')
             if k == 2 and a: return '(array_slice %s 0 %d)' % (a, r.randrange(0, 3))
             if k == 3 and not deep: return '(array_push %s %s)' % (self.expr(env, 'as', d + 1), self.expr(env, 'str', d + 1))
+            if k == 4 and a: return r.choice(['(filter %s keep_str)', '(map %s same_str)']) % a
             return '[%s]' % ', '.join(self.expr(env, 'str', d + 2) for _ in range(r.randrange(1, 4)))
         if ty == 'aai':
+            k = r.randrange(6)
+            a = self.pick(env, 'aai')
+            if k == 0 and a: return '(array_slice %s %d %d)' % (a, r.randrange(0, 2), r.randrange(1, 4))
+            if k == 1 and a: return '(filter %s keep_arr)' % a
+            if k == 2 and a: return '(map %s grow)' % a
             return '[%s]' % ', '.join(self.expr(env, 'ai', d + 2) for _ in range(r.randrange(1, 3)))
+        if ty == 'aP':
+            a = self.pick(env, 'aP')
+            if a and r.random() < 0.4: return '(array_slice %s %d %d)' % (a, r.randrange(0, 2), r.randrange(1, 4))
+            return '[%s]' % ', '.join(self.expr(env, 'P', d + 2) for _ in range(r.randrange(1, 3)))
         if ty == 'P':
             k = r.randrange(4)
             q = self.pick(env, 'Q')
@@ -127,32 +163,35 @@ class Gen:
     def stmt(self, env, ind, depth):
         r = self.rng
         pad = '    ' * ind
+        if r.random() < 0.14:
+            dd = self.derive_drop(env, pad)
+            if dd: return dd
         k = r.randrange(100)
         out = []
         if k < 30:
-            ty = r.choice(['str', 'ai', 'as', 'P', 'Q', 'T', 'U', 'aai', 'int', 'ai', 'str'])
+            ty = r.choice(['str', 'ai', 'as', 'P', 'Q', 'T', 'U', 'aai', 'aP', 'int', 'ai', 'str'])
             n = self.fresh()
             mut = r.random() < 0.5
             out.append('%slet %s%s: %s = %s' % (pad, 'mut ' if mut else '', n, TYPES[ty], self.expr(env, ty)))
             env.append((n, ty, mut))
             self.feat['let:' + ty] += 1
         elif k < 42:
-            ty = r.choice(['str', 'ai', 'as', 'P', 'aai'])
+            ty = r.choice(['str', 'ai', 'as', 'P', 'aai', 'aP'])
             v = self.pick(env, ty, mut=True)
             if v:
                 out.append('%sset %s %s' % (pad, v, self.expr(env, ty)))
                 self.feat['set:' + ty] += 1
         elif k < 54:
-            ty = r.choice(['ai', 'as', 'aai'])
+            ty = r.choice(['ai', 'as', 'aai', 'aP'])
             v = self.pick(env, ty, mut=True)
-            el = {'ai': 'int', 'as': 'str', 'aai': 'ai'}[ty]
+            el = {'ai': 'int', 'as': 'str', 'aai': 'ai', 'aP': 'P'}[ty]
             if v:
                 out.append('%sset %s (array_push %s %s)' % (pad, v, v, self.expr(env, el)))
                 self.feat['push:' + ty] += 1
         elif k < 62:
-            ty = r.choice(['as', 'aai', 'ai'])
+            ty = r.choice(['as', 'aai', 'ai', 'aP'])
             v = self.pick(env, ty)
-            el = {'ai': 'int', 'as': 'str', 'aai': 'ai'}[ty]
+            el = {'ai': 'int', 'as': 'str', 'aai': 'ai', 'aP': 'P'}[ty]
             if v:
                 n = self.fresh()
                 i = r.randrange(0, 3)
@@ -167,9 +206,9 @@ class Gen:
                 out.append('%s}' % pad)
                 self.feat['get:' + ty] += 1
         elif k < 68:
-            ty = r.choice(['as', 'aai', 'ai'])
+            ty = r.choice(['as', 'aai', 'ai', 'aP'])
             v = self.pick(env, ty)
-            el = {'ai': 'int', 'as': 'str', 'aai': 'ai'}[ty]
+            el = {'ai': 'int', 'as': 'str', 'aai': 'ai', 'aP': 'P'}[ty]
             if v:
                 i = r.randrange(0, 3)
                 if False: pass
@@ -178,9 +217,9 @@ class Gen:
                 if i != 9: out.append('%s} else {\n%s    (println 1)\n%s}' % (pad, pad, pad))
                 self.feat['aset:' + ty + (':oob' if i == 9 else '')] += 1
         elif k < 73:
-            ty = r.choice(['as', 'aai', 'ai'])
+            ty = r.choice(['as', 'aai', 'ai', 'aP'])
             v = self.pick(env, ty, mut=True)
-            el = {'ai': 'int', 'as': 'str', 'aai': 'ai'}[ty]
+            el = {'ai': 'int', 'as': 'str', 'aai': 'ai', 'aP': 'P'}[ty]
             if v:
                 n = self.fresh()
                 out.append('%sif (> (array_length %s) 0) {' % (pad, v))
@@ -188,10 +227,13 @@ class Gen:
                 out.append('%s} else {\n%s    (println 2)\n%s}' % (pad, pad, pad))
                 self.feat['apop:' + ty] += 1
         elif k < 76:
-            ty = r.choice(['as', 'aai', 'ai'])
+            ty = r.choice(['as', 'aai', 'ai', 'aP'])
             v = self.pick(env, ty, mut=True)
             if v:
-                out.append('%sset %s (array_remove_at %s %d)' % (pad, v, v, r.randrange(0, 2)))
+                j = r.randrange(0, 2)
+                out.append('%sif (> (array_length %s) %d) {' % (pad, v, j))
+                out.append('%s    set %s (array_remove_at %s %d)' % (pad, v, v, j))
+                out.append('%s} else {\n%s    (println 6)\n%s}' % (pad, pad, pad))
                 self.feat['aremove:' + ty] += 1
         elif k < 79:
             n = self.fresh('f')
@@ -241,7 +283,7 @@ class Gen:
         work = 'fn work(a: array<int>, s: string, p: P) -> array<string> {\n%s\n    return [s, p.name, %s]\n}\n' % (
             '\n'.join(wb), self.expr(wenv, 'str'))
         env = []
-        for ty in ['ai', 'str', 'as']:
+        for ty in ['ai', 'str', 'as', 'aai', 'aP']:
             n = self.fresh()
             body.append('    let mut %s: %s = %s' % (n, TYPES[ty], self.expr(env, ty)))
             env.append((n, ty, True))
@@ -251,16 +293,93 @@ class Gen:
                 n = self.fresh('w')
                 body.append('    let %s: array<string> = (work %s %s %s)' % (n, self.expr(env, 'ai'), self.expr(env, 'str'), self.expr(env, 'P')))
                 env.append((n, 'as', False))
-        if self.leaky:
+        if self.rng.random() < 0.15:
+            body += self.bcast_ender(env)
+        elif self.leaky:
             body += self.trap_ender(env)
-        return PRELUDE + TRAP_HELPERS + work + 'fn main() -> int {\n' + '\n'.join(body) + '\n    return 0\n}\n'
+        return PRELUDE + TRAP_HELPERS + COPY_HELPERS + work + 'fn main() -> int {\n' + '\n'.join(body) + '\n    return 0\n}\n'
+
+    def derive_drop(self, env, pad):
+        """element-copying operation over an array whose ELEMENTS are heap objects (nested arrays, structs, strings; the code
+        generator tags most of these arrays TAG_INT), the derived array dies (callee returns / overwritten / emptied) while
+        the source stays in use, then the source's elements are read again"""
+        r = self.rng
+        ty = r.choice(['aai', 'aP', 'as', 'aai', 'aP'])
+        el = {'as': 'str', 'aai': 'ai', 'aP': 'P'}[ty]
+        S = self.pick(env, ty)
+        if not S:
+            return None
+        T = TYPES[ty]
+        lo, hi = r.randrange(0, 2), r.randrange(1, 4)
+        form = r.randrange(7)
+        out = []
+        d = self.fresh('d')
+        if form == 0:      # slice made and dropped inside a callee
+            out.append('%slet %s: int = (slice_len_%s %s %d %d)' % (pad, self.fresh(), ty.lower(), S, lo, hi))
+        elif form == 1:    # slice overwritten by another slice, then by an empty one
+            out.append('%slet mut %s: %s = (array_slice %s %d %d)' % (pad, d, T, S, lo, hi))
+            out.append('%sset %s (array_slice %s %d %d)' % (pad, d, S, 0, hi))
+            out.append('%sset %s (array_slice %s 0 0)' % (pad, d, S))
+        elif form == 2:    # slice of a slice, inner one dropped first
+            d2 = self.fresh('d')
+            out.append('%slet mut %s: %s = (array_slice %s 0 %d)' % (pad, d, T, S, hi + 1))
+            out.append('%slet mut %s: %s = (array_slice %s 0 1)' % (pad, d2, T, d))
+            out.append('%sset %s (array_slice %s 0 0)' % (pad, d2, S))
+            out.append('%sset %s (array_slice %s 0 0)' % (pad, d, S))
+        elif form == 3:    # slices dropped by the next loop iteration (slot overwritten)
+            i = self.fresh('i')
+            out.append('%slet mut %s: int = 0' % (pad, i))
+            out.append('%swhile (< %s 3) {' % (pad, i))
+            out.append('%s    let %s: %s = (array_slice %s %s %d)' % (pad, d, T, S, i, hi + 1))
+            out.append('%s    set %s (+ %s 1)' % (pad, i, i))
+            out.append('%s}' % pad)
+        elif form == 4 and ty != 'aP':   # filter / map result dropped
+            fn = {'aai': r.choice(['(filter %s keep_arr)', '(map %s grow)']), 'as': r.choice(['(filter %s keep_str)', '(map %s same_str)'])}[ty]
+            out.append('%slet mut %s: %s = %s' % (pad, d, T, fn % S))
+            out.append('%sset %s (array_slice %s 0 0)' % (pad, d, S))
+        elif form == 5:    # literal rebuilt from elements of the source, then emptied by pops
+            out.append('%sif (> (array_length %s) 1) {' % (pad, S))
+            out.append('%s    let mut %s: %s = [(at %s 0), (at %s 1), (at %s 0)]' % (pad, d, T, S, S, S))
+            out.append('%s    let %s: %s = (array_pop %s)' % (pad, self.fresh(), TYPES[el], d))
+            out.append('%s    set %s (array_remove_at %s 0)' % (pad, d, d))
+            out.append('%s} else {\n%s    (println 3)\n%s}' % (pad, pad, pad))
+        else:              # slice pushed into / removed from another container
+            out.append('%slet mut %s: %s = (array_slice %s %d %d)' % (pad, d, T, S, lo, hi))
+            out.append('%sset %s (array_push %s %s)' % (pad, d, d, self.expr(env, el)))
+            out.append('%sset %s (array_slice %s 0 0)' % (pad, d, d))
+        # the source is still in use: read its elements again
+        e = self.fresh('e')
+        use = {'str': '(str_length %s)' % e, 'ai': '(array_length %s)' % e, 'P': '(str_length %s.name)' % e}[el]
+        out.append('%sif (> (array_length %s) %d) {' % (pad, S, lo))
+        out.append('%s    let %s: %s = (at %s %d)' % (pad, e, TYPES[el], S, lo))
+        out.append('%s    (println %s)' % (pad, use))
+        out.append('%s} else {\n%s    (println 4)\n%s}' % (pad, pad, pad))
+        self.feat['derive_drop:%s:%d' % (ty, form)] += 1
+        return out
+
+    def bcast_ender(self, env):
+        """string broadcast + (array + scalar) builds a TAG_INT array of fresh strings: slice it, drop the slice, read the source.
+        Element-wise array arithmetic is outside the Coq model, so this comes last (the rest of the program is audited only)."""
+        S = self.pick(env, 'as')
+        if not S:
+            return []
+        b, d, e = self.fresh('b'), self.fresh('d'), self.fresh('e')
+        self.feat['bcast_ender'] += 1
+        return ['    let %s: array<string> = (+ %s "!")' % (b, S),
+                '    let mut %s: array<string> = (array_slice %s 0 2)' % (d, b),
+                '    set %s (array_slice %s 0 0)' % (d, b),
+                '    let %s: int = (slice_len_as %s 0 3)' % (self.fresh(), b),
+                '    if (> (array_length %s) 0) {' % b,
+                '        let %s: string = (at %s 0)' % (e, b),
+                '        (println %s)' % e,
+                '    } else {', '        (println 5)', '    }']
 
     def trap_ender(self, env):
         """a last statement that makes the VM trap with references in flight: out-of-range get / set / remove (index past the
         end, negative, or 2^32 + small which is in range after a 32-bit narrowing), pop of an empty array; in main or two frames down"""
         r = self.rng
-        ty = r.choice(['as', 'aai', 'ai', 'as'])
-        el = {'ai': 'int', 'as': 'str', 'aai': 'ai'}[ty]
+        ty = r.choice(['as', 'aai', 'ai', 'aP'])
+        el = {'ai': 'int', 'as': 'str', 'aai': 'ai', 'aP': 'P'}[ty]
         a = self.pick(env, ty)
         if not a:
             a = self.fresh(); pre = ['    let mut %s: %s = %s' % (a, TYPES[ty], self.expr(env, ty))]
@@ -291,6 +410,11 @@ class AsmGen:
         self.nl += 1
         return 'L%d' % self.nl
 
+    def etag(self):
+        """VmArray.elem_type operand: every tag value, scalar tags most of the time (the compiler's default is TAG_INT = 1
+        whatever the elements are), independent of what is stored in the array"""
+        return 1 if self.r.random() < 0.4 else self.r.randrange(0, 15)
+
     def body(self, nloc, n_ops, can_call):
         r = self.r
         st = []                     # abstract operand stack: 'i' int, 's' str, 'a' arr, ('S', n) struct, ('T', n) tuple, ('U', n) union, 'c' closure, '?' unknown
@@ -301,7 +425,7 @@ class AsmGen:
             k = r.randrange(7)
             if k == 0: emit('PUSH_I64 %d' % r.randrange(4)); st.append('i')
             elif k == 1: emit('PUSH_STR %d' % r.randrange(4)); st.append('s')
-            elif k == 2: emit('ARR_NEW 7'); st.append('a')
+            elif k == 2: emit('ARR_NEW %d' % self.etag()); st.append('a')
             elif k == 3 and any(t != 'v' for t in loc):
                 i = r.choice([j for j, t in enumerate(loc) if t != 'v']); emit('LOAD_LOCAL %d' % i); st.append(loc[i])
             elif k == 4: emit('LOAD_GLOBAL %d' % r.randrange(3)); st.append('?')
@@ -356,8 +480,24 @@ class AsmGen:
                     emit('SWAP'); emit('PUSH_I64 %d' % j); emit('SWAP'); emit('ARR_SET'); emit('JMP %s' % lb)
                     out.append(la + ':'); emit('SWAP'); emit('POP'); out.append(lb + ':')
                 self.feat['arr_set'] += 1
-            elif k < 74 and top == 'a':
-                emit('PUSH_I64 0'); emit('PUSH_I64 %d' % r.randrange(3)); emit('ARR_SLICE'); self.feat['slice'] += 1
+            elif k < 78 and top == 'a':
+                if r.random() < 0.3:
+                    emit('PUSH_I64 0'); emit('PUSH_I64 %d' % r.randrange(3)); emit('ARR_SLICE'); self.feat['slice'] += 1
+                else:
+                    # the source stays (on the stack / in a local), the slice is made, inspected and dropped, then the source is read again
+                    # make sure a reference is in it, whatever the array's element tag says
+                    emit(r.choice(['PUSH_STR %d' % r.randrange(4), 'ARR_NEW %d' % self.etag(), 'LOAD_GLOBAL 0'])); emit('ARR_PUSH')
+                    emit('DUP'); emit('PUSH_I64 %d' % r.randrange(2)); emit('PUSH_I64 %d' % r.randrange(1, 4)); emit('ARR_SLICE')
+                    w = r.randrange(3)
+                    if w == 0: emit('POP')
+                    elif w == 1: emit('DUP'); emit('ARR_LEN'); emit('POP'); emit('POP')
+                    else:
+                        i = r.randrange(nloc); emit('STORE_LOCAL %d' % i); emit('PUSH_VOID'); emit('STORE_LOCAL %d' % i); loc[i] = 'v'
+                    la, lb = self.label(), self.label()
+                    emit('DUP'); emit('DUP'); emit('ARR_LEN'); emit('PUSH_I64 0'); emit('GT'); emit('JMP_FALSE %s' % la)
+                    emit('PUSH_I64 0'); emit('ARR_GET'); emit('JMP %s' % lb); out.append(la + ':'); emit('POP'); emit('PUSH_VOID'); out.append(lb + ':')
+                    emit('POP')
+                    self.feat['slice_drop_reread'] += 1
             elif k < 76 and top == 'a':
                 if r.random() < 0.06:
                     emit('PUSH_I64 %s' % r.choice(['7', '-1', '4294967296'])); emit('ARR_REMOVE'); self.feat['remove_unguarded'] += 1
@@ -373,7 +513,7 @@ class AsmGen:
                 if kind == 'S': emit('STRUCT_LITERAL 0 %d' % n); st.append(('S', n))
                 elif kind == 'T': emit('TUPLE_NEW %d' % n); st.append(('T', n))
                 elif kind == 'U': emit('UNION_CONSTRUCT 0 1 %d' % n); st.append(('U', n))
-                elif kind == 'L': emit('ARR_LITERAL 7 %d' % n); st.append('a')
+                elif kind == 'L': emit('ARR_LITERAL %d %d' % (self.etag(), n)); st.append('a')
                 else: emit('CLOSURE_NEW 1 %d' % n); st.append(('c', n))
                 self.feat['construct:' + kind] += 1
                 if kind == 'S' and n > 0 and r.random() < 0.5:
@@ -491,6 +631,7 @@ def model_run(ref, steps):
 
 
 # opcodes all of whose trap conditions are visible to the model (operand kinds, index / field / local ranges)
+SCALAR_TAGS = {0, 1, 2, 3, 4, 9, 14}      # void int u8 float bool enum opaque: element tags under which nothing looks like a reference
 COMPLETE_TRAP_OPS = {'ARR_PUSH', 'ARR_POP', 'ARR_GET', 'ARR_SET', 'ARR_REMOVE', 'ARR_SLICE', 'STRUCT_GET', 'STRUCT_SET', 'UNION_FIELD',
                      'TUPLE_GET', 'STR_CONCAT', 'LOAD_LOCAL', 'STORE_LOCAL', 'LOAD_GLOBAL', 'STORE_GLOBAL'}
 
@@ -559,6 +700,7 @@ class Runner:
         self.leak_ops = collections.Counter()
         self.unsupported = collections.Counter()
         self.traps = collections.Counter()
+        self.slices = collections.Counter()
 
     def one(self, name, src_text, asan=False, max_steps=20000, src_path=None):
         """compile + trace + model.  -> dict.  Text starting with '.' is NanoISA assembly, anything else nano source.
@@ -618,8 +760,26 @@ def judge(ck, R, res, src_text, kind):
         return True
     failed = False
     steps = res['steps']
+    prev_live = {}
     for s in steps:
         R.ops[s.op] += 1
+        if s.op == 'ARR_SLICE' and s.live is not None:
+            # did the slice copy references?  (in-degree of already existing objects grew), and how was the source array tagged
+            new = {int(e.split()[1]) for e in s.events if e.startswith('A ')}
+            copied = sum(max(0, ind - prev_live.get(o, (0, 0, 0))[2]) for o, (t, rc, ind) in s.live.items() if o not in new)
+            try:
+                etag = int(s.iline.split(' | e ')[1].split()[2])
+            except (IndexError, ValueError):
+                etag = -1
+            cls = 'scalar-tag' if etag in SCALAR_TAGS else 'ref-tag'
+            R.slices['slices'] += 1
+            if copied:
+                R.slices['over-heap-elements'] += 1
+                R.slices['over-heap-elements:%s' % cls] += 1
+                R.slices['over-heap-elements:elem_type=%d' % etag] += 1
+                R.slices['references-copied'] += copied
+        if s.live is not None:
+            prev_live = s.live
     ck.count(hashlib.sha1(src_text.encode()).hexdigest(), nontrivial=sum(len(s.events) for s in steps) >= 3 and len(steps) > 20, n=len(steps))
     if res['v']:
         v = res['v'][0].split()
@@ -761,7 +921,7 @@ def run(ck):
                       'in-process; every instruction boundary is one evaluation; non-trivial program = >= 3 allocation/free events and '
                       '> 20 instructions; distinct = distinct program text')
     ck.extra.update(exhaustive=False, programs=len(progs), program_status=dict(R.stats), opcode_histogram=dict(R.ops.most_common()),
-                    leak_sites_seen=dict(R.leak_ops), model_unsupported=dict(R.unsupported), trap_sites_seen=dict(R.traps.most_common()),
+                    leak_sites_seen=dict(R.leak_ops), model_unsupported=dict(R.unsupported), trap_sites_seen=dict(R.traps.most_common()), slice_cases=dict(R.slices),
                     generator_features=dict(feats.most_common()), asan_fraction='1/%d of the generated programs run under the asan build of the probe' % asan_every)
     ck.trusted += ['probes/heap_trace.c (registry, in-degree audit, trace printer); hooks vm_verif_step_cb / vm_verif_heap_cb of the NANOLANG_VERIF build',
                    'extract/c14_driver.ml (parsing; opcode number -> model instruction constructor table)',
